@@ -1,10 +1,12 @@
 import PbVerif.Props.C07
 import PbVerif.Props.C03
 import PbVerif.Lemmas.MsgAlgFuel
+import PbVerif.Lemmas.MsgAlgRound
 /-
 C07, second part — merge and decoding: the decoder is a left fold over the records of its input
 (`decode_append`), and merging `b` into `a` is decoding the encoding of `b` into `a`
-(`merge_eq_decode_encode`).
+(`merge_eq_decode_encode`, full strength: any destination), hence
+`merge a b = decode (encode a ++ encode b)` (`merge_eq_decode_concat`).
 -/
 namespace C07
 open Pb Spec
@@ -108,6 +110,43 @@ theorem decode_append (S : Schema) (mi : Nat) (m : Msg) (x y : List Byte) (limit
       exact decMsg_fuel_eq S mi m' y (limit - 1) dis
         (by unfold Pb.fuelFor; simp only [List.length_append]; omega) (Nat.le_refl _)
 
+/-- whatever decodes successfully is a sequence of complete records -/
+theorem records_of_decMsg (S : Schema) (mi : Nat) (depth : Int) (dis : Bool) :
+    ∀ (F : Nat) (m R : Msg) (x : List Byte), decMsg F S mi m x depth dis = .ok R → Records x
+  | 0, _, _, _, h => by rw [decMsg.eq_1] at h; cases h
+  | F + 1, m, R, x, h => by
+    cases x with
+    | nil => exact .nil
+    | cons y t =>
+      rw [decMsg.eq_3 _ _ _ _ _ _ _ (by intro e; cases e)] at h
+      cases hT : decTag (y :: t) with
+      | error e => rw [hT] at h; cases h
+      | ok r =>
+        obtain ⟨num, wt, tl⟩ := r
+        rw [hT] at h
+        simp only at h
+        by_cases hmax : num > maxValidNumber
+        · simp only [hmax, if_true] at h; cases h
+        · simp only [hmax, if_false] at h
+          cases hC : consumeFieldValue num wt (List.drop tl (y :: t)) with
+          | error e =>
+            rw [hC] at h
+            split at h <;> cases h
+          | ok k =>
+            rw [hC] at h
+            refine .cons hT hC ?_
+            split at h
+            · cases h
+            · exact records_of_decMsg S mi depth dis F _ R _ h
+            · exact records_of_decMsg S mi depth dis F _ R _ h
+
+theorem records_of_unmarshal (S : Schema) (mi : Nat) (m R : Msg) (x : List Byte) (limit : Int) (dis : Bool)
+    (h : unmarshalInto S mi m x limit dis = .ok R) : Records x := by
+  unfold unmarshalInto at h
+  split at h
+  · cases h
+  · exact records_of_decMsg S mi _ dis _ m R x h
+
 /-- two complete records (field 1 varint 1, field 2 bytes "a") -/
 example : Records [0x08#8, 0x01#8, 0x12#8, 0x01#8, 0x61#8] :=
   .cons (num := 1) (wt := 0) (tl := 1) (k := 1) rfl rfl
@@ -115,29 +154,51 @@ example : Records [0x08#8, 0x01#8, 0x12#8, 0x01#8, 0x61#8] :=
 
 /-! ### merge = decode ∘ encode
 
-FULL STATEMENT (what the property asks for; proved below for the destination `a = Msg.empty`
-as `merge_eq_decode_encode_partial`, and see `merge_eq_decode_encode_fields` at the end of this
-file for the fragment with arbitrary destination):
-
-  theorem merge_eq_decode_encode (S : Schema) (mi : Nat) (a b : Msg) (limit : Int)
-      (hb : WF S mi b) (hw : pwfMsg S mi b = true) (hd : depthOK b limit) :
-      unmarshalInto S mi a (encMsg S mi b) limit false = .ok (mergeMsg S mi a b)
-
 `WF` (Lemmas/MsgWF.lean, the round-trip well-formedness of C03: canonical scalars, sizes < 2^64,
-ascending order, …) and `pwfMsg` (map entries, read as messages of the entry type, obey the
-presence discipline of the entry descriptor) are both needed: for a schema whose entry key field
-is declared with implicit presence, `mergeMsg` deep-copies the entry *as a message* and drops a
-zero key, while the decoder always materialises key and value — `merge_needs_entry_presence`. -/
+ascending order, declared numbers, …) and `pwfMsg` (map entries, read as messages of the entry
+type, obey the presence discipline of the entry descriptor) are both needed: for a schema whose
+entry key field is declared with implicit presence, `mergeMsg` deep-copies the entry *as a
+message* and drops a zero key, while the decoder always materialises key and value —
+`merge_needs_entry_presence`. -/
 
-/-- merge into the empty message = decode of the encoding into the empty message -/
-theorem merge_eq_decode_encode_partial (S : Schema) (mi : Nat) (b : Msg) (limit : Int)
-    (hb : WF S mi b) (hw : pwfMsg S mi b = true) (hs : sortedMsg b = true) (hd : depthOK b limit) :
-    unmarshalInto S mi Msg.empty (encMsg S mi b) limit false = .ok (mergeMsg S mi Msg.empty b) := by
-  rw [merge_empty_left_eq S mi b hw hs]
-  exact C03.decode_encode S mi b limit hb hd
+/-- **merge_eq_decode_encode (full strength)**: for every schema (cyclic ones, groups, maps, oneofs,
+packed lists, unknown fields included), every well-formed source `b` and EVERY destination `a`
+(any message value whatsoever): unmarshalling the encoding of `b` into `a` with merge semantics
+gives exactly `mergeMsg a b` -/
+theorem merge_eq_decode_encode (S : Schema) (mi : Nat) (a b : Msg) (limit : Int)
+    (hb : WF S mi b) (hw : pwfMsg S mi b = true) (hd : depthOK b limit) :
+    unmarshalInto S mi a (encMsg S mi b) limit false = .ok (mergeMsg S mi a b) := by
+  unfold unmarshalInto
+  have hpos := depthMsg_pos b
+  unfold depthOK at hd
+  have : ¬ limit - 1 < 0 := by omega
+  simp only [this, if_false]
+  exact mergeRound S b mi defaultRecursionLimit (limit - 1) a (Int.le_refl _) hb hw (by omega)
+    (Pb.fuelFor (encMsg S mi b)) (Nat.le_refl _)
 
-example : WF C03.Example.S 0 C03.Example.M ∧ pwfMsg C03.Example.S 0 C03.Example.M = true ∧ sortedMsg C03.Example.M = true ∧ depthOK C03.Example.M 3 := by
+example : WF C03.Example.S 0 C03.Example.M ∧ pwfMsg C03.Example.S 0 C03.Example.M = true ∧
+    depthOK C03.Example.M 3 := by
   decide +kernel
+
+/-- hence `Merge(a, b)` is `Equal` (indeed identical) to unmarshalling `Marshal(a) ‖ Marshal(b)`
+into a fresh message, for well-formed `a` and `b` -/
+theorem merge_eq_decode_concat (S : Schema) (mi : Nat) (a b : Msg) (limit : Int)
+    (ha : WF S mi a) (hda : depthOK a limit)
+    (hb : WF S mi b) (hw : pwfMsg S mi b = true) (hdb : depthOK b limit) :
+    unmarshal S mi (encMsg S mi a ++ encMsg S mi b) limit false = .ok (mergeMsg S mi a b) := by
+  have h1 : unmarshalInto S mi Msg.empty (encMsg S mi a) limit false = .ok a :=
+    C03.decode_encode S mi a limit ha hda
+  unfold unmarshal
+  rw [decode_append S mi Msg.empty _ _ limit false (records_of_unmarshal S mi _ _ _ limit false h1), h1]
+  exact merge_eq_decode_encode S mi a b limit hb hw hdb
+
+/-- `UnmarshalOptions{Merge:true}.Unmarshal(Marshal(b), a)` is `Merge(a, Unmarshal(Marshal(b)))` -/
+theorem unmarshalMerge_eq_merge_decode (S : Schema) (mi : Nat) (a b : Msg) (limit : Int)
+    (hb : WF S mi b) (hw : pwfMsg S mi b = true) (hd : depthOK b limit) :
+    unmarshalInto S mi a (encMsg S mi b) limit false =
+      (unmarshal S mi (encMsg S mi b) limit false).map (mergeMsg S mi a) := by
+  rw [merge_eq_decode_encode S mi a b limit hb hw hd, C03.decode_encode S mi b limit hb hd]
+  rfl
 
 /-- an entry descriptor with an implicit-presence key: merge drops the zero key of the copied entry
 (so the result is not even `eqMsg`-equal to the source), the decoder keeps it — outside `pwfMsg`
